@@ -1008,6 +1008,13 @@ func NewOpLib() *OpLib {
 		h := w.Height() + 1
 		p.Txs = one("lp1", &mctypes.MsgAddExternalIncentive{Sender: w.A("lp1").Addr.String(), RewardDenom: "uatom", PoolId: 2, FromBlock: h, ToBlock: h + 12, AmountPerBlock: I(1e8)})
 	})
+	// governance switches Eden rewards ON for the constant-product pool 2 (off by default)
+	l.Add("cfg_mc_eden_rewards_p2_on", "config", 1, func(w *World, p *BlockPlan) {
+		p.Gov = append(p.Gov, func(ctx sdk.Context) error {
+			_, err := mckeeper.NewMsgServerImpl(w.App.MasterchefKeeper).TogglePoolEdenRewards(ctx, &mctypes.MsgTogglePoolEdenRewards{Authority: w.Gov, PoolId: 2, Enable: true})
+			return err
+		})
+	})
 	// governance DELISTS / RELISTS an external reward denom while incentives paying it may be running
 	for _, v := range []struct {
 		n  string
